@@ -255,8 +255,8 @@ class Equation:
         products = []
         for i, term in enumerate(
                 self.program.get_equation().get_term_tensors()):
-            factors = [var for var in self.program.get_equation().get_term_vars()[i] if self.__in_update(
-                var)] + [tensor.lower() + "_val" for tensor in term if self.__in_update(tensor)]
+            factors = self.program.get_equation().get_vars_in_update()[i] + \
+                [tensor.lower() + "_val" for tensor in term if self.__in_update(tensor)]
 
             product: Expression = EVar(factors[0])
             for factor in factors[1:]:
